@@ -160,9 +160,10 @@ Definition n_pw_val (sel : list Qc -> nat -> option Qc) (f : bsp) (xs : list Qc)
   | Some us => Some (pw_val_at f us 0 c / pw_val_at f us 0 (wcomp f))
   | None => None end.
 
-(* _nurbs_jacobian (geometry.py:17-25) *)
+(* _nurbs_jacobian (geometry.py:17-25): (Vjac * W - V * Wjac) / W**2 per entry *)
+Definition nurbs_jac_entry (V W Vj Wj : Qc) : Qc := (Vj * W - V * Wj) / (W * W).
 Definition nurbs_jac (V W : Qc) (Vj Wj : list Qc) : list Qc :=
-  map (fun vw => (fst vw * W - V * snd vw) / (W * W)) (combine Vj Wj).
+  map (fun vw => nurbs_jac_entry V W (fst vw) (snd vw)) (combine Vj Wj).
 Definition n_jac (f : bsp) (us : list Qc) (c : nat) : list Qc :=
   nurbs_jac (g_val f us c) (g_val f us (wcomp f)) (g_jac f us c) (g_jac f us (wcomp f)).
 (* pointwise_jacobian (geometry.py:182-186) through tp_bsp_eval_with_jac_pointwise (derivs=1 rows) *)
@@ -176,7 +177,11 @@ Definition n_pw_jac (sel : list Qc -> nat -> option Qc) (f : bsp) (xs : list Qc)
 Definition triu (d : nat) : list (nat * nat) :=
   flat_map (fun a => map (fun b => (a, b)) (seq a (d - a))) (seq 0 d).
 
-(* grid_hessian (geometry.py:125-150) *)
+(* grid_hessian (geometry.py:125-150), entry for the index pair (a, b) = (I[k], J[k]):
+   Nhess1 = Vhess / W - (V * Whess) / W**2;  mat[a][b] = Njac[b] * Wjac[a] / W;  mat += mat^T;
+   H = Nhess1 - mat[I, J] *)
+Definition nurbs_hess_entry (V W Vh Wh Nja Njb Wja Wjb : Qc) : Qc :=
+  Vh / W - (V * Wh) / (W * W) - (Njb * Wja / W + Nja * Wjb / W).
 Definition n_hess (f : bsp) (us : list Qc) (c : nat) : list Qc :=
   let V := g_val f us c in
   let W := g_val f us (wcomp f) in
@@ -184,10 +189,8 @@ Definition n_hess (f : bsp) (us : list Qc) (c : nat) : list Qc :=
   let Nj := nurbs_jac V W (g_jac f us c) Wj in
   let Vh := g_hess f us c in
   let Wh := g_hess f us (wcomp f) in
-  (* mat[a][b] = Njac[b] * Wjac[a] / W, then mat += mat^T *)
-  let mat a b := nth b Nj 0 * nth a Wj 0 / W + nth a Nj 0 * nth b Wj 0 / W in
   map (fun t => let '(k, (a, b)) := t in
-                nth k Vh 0 / W - (V * nth k Wh 0) / (W * W) - mat a b)
+                nurbs_hess_entry V W (nth k Vh 0) (nth k Wh 0) (nth a Nj 0) (nth b Nj 0) (nth a Wj 0) (nth b Wj 0))
       (combine (seq 0 (length (triu (sdim f)))) (triu (sdim f))).
 
 (* coeffs_weights (geometry.py:233-236) *)
